@@ -38,6 +38,7 @@ Record mobs := mkMobs {
   mo_num : N; mo_limit : N;
   mo_members : list (addr * N);
   mo_has : list (addr * result bool);
+  mo_member : list (addr * result N);          (* Member { member } (flex) *)
   mo_can : list (addr * result bool);          (* CanExecute { sender } *)
   mo_admins : list addr * bool;                 (* AdminList *)
   mo_ledger : ledger
@@ -48,6 +49,7 @@ Definition mobs_ok (w : wl) (l : ledger) (o : mobs) : bool :=
   (w_num w =? mo_num o) && (w_limit w =? mo_limit o) &&
   list_eqb pair_eqb (msort (w_mem w)) (mo_members o) &&
   forallb (fun p => rbool_eqb (q_has valid_id (fst p) w) (snd p)) (mo_has o) &&
+  forallb (fun p => result_eqb N.eqb (q_member valid_id (fst p) w) (snd p)) (mo_member o) &&
   forallb (fun p => rbool_eqb (q_can_execute valid_id (fst p) w) (snd p)) (mo_can o) &&
   list_eqb N.eqb (fst (q_admin_list w)) (fst (mo_admins o)) && Bool.eqb (snd (q_admin_list w)) (snd (mo_admins o)) &&
   ledger_eqb l (mo_ledger o).
@@ -70,6 +72,8 @@ Record tobs := mkTobs {
   to_probe : list (N * addr * result bool);    (* StageMemberInfo.is_member *)
   to_has : list (addr * result bool);          (* HasMember at the current instant *)
   to_all : list (addr * result (list (N * bool * N)));   (* AllStageMemberInfo { member } *)
+  to_member : list (addr * result N);          (* Member { member } at the current instant (flex) *)
+  to_stage_beyond_ok : bool;                   (* Stage { stage_id = #stages } answered at all *)
   to_can : list (addr * result bool);          (* CanExecute { sender } *)
   to_admins : list addr * bool;                (* AdminList *)
   to_ledger : ledger
@@ -93,6 +97,8 @@ Definition tobs_ok (now : N) (w : tw) (l : ledger) (o : tobs) : bool :=
   forallb (fun p => rbool_eqb (tq_stage_member valid_id (fst (fst p)) (snd (fst p)) w) (snd p)) (to_probe o) &&
   forallb (fun p => rbool_eqb (tq_has valid_id now (fst p) w) (snd p)) (to_has o) &&
   forallb (fun p => result_eqb (list_eqb info_eqb) (tq_all_member valid_id (fst p) w) (snd p)) (to_all o) &&
+  forallb (fun p => result_eqb N.eqb (tq_member valid_id now (fst p) w) (snd p)) (to_member o) &&
+  Bool.eqb (is_ok (tq_stage_count (to_nstages o) w)) (to_stage_beyond_ok o) &&
   forallb (fun p => rbool_eqb (tq_can_execute valid_id (fst p) w) (snd p)) (to_can o) &&
   list_eqb N.eqb (fst (tq_admin_list w)) (fst (to_admins o)) && Bool.eqb (snd (tq_admin_list w)) (snd (to_admins o)) &&
   ledger_eqb l (to_ledger o).
